@@ -238,7 +238,7 @@ theorem fd_mutual {cfg} : ∀ fuel,
       -- the key
       have hkey : Fd (if ((cur s).1 == 0x22 || (cur s).1 == 0x27) = true then parseQuoted cfg (cur s).1 (f+1) [] 0 (mv (cur s).2)
             else if inUnquoted (cur s).1 = true then
-              (Code.ok, (parseUnquoted (f+1) [] (cur s).2).1, (parseUnquoted (f+1) [] (cur s).2).2)
+              ((if (parseUnquoted (f+1) [] (cur s).2).1.length > cfg.maxStrLen then Code.noMemory else Code.ok), (parseUnquoted (f+1) [] (cur s).2).1, (parseUnquoted (f+1) [] (cur s).2).2)
             else (Code.invalid, [], (cur s).2)).2.2 := by
         split
         · exact fd_parseQuoted _ _ _ _ (fd_mv hc)
@@ -247,7 +247,7 @@ theorem fd_mutual {cfg} : ∀ fuel,
           · exact hc
       generalize (if ((cur s).1 == 0x22 || (cur s).1 == 0x27) = true then parseQuoted cfg (cur s).1 (f+1) [] 0 (mv (cur s).2)
             else if inUnquoted (cur s).1 = true then
-              (Code.ok, (parseUnquoted (f+1) [] (cur s).2).1, (parseUnquoted (f+1) [] (cur s).2).2)
+              ((if (parseUnquoted (f+1) [] (cur s).2).1.length > cfg.maxStrLen then Code.noMemory else Code.ok), (parseUnquoted (f+1) [] (cur s).2).1, (parseUnquoted (f+1) [] (cur s).2).2)
             else (Code.invalid, [], (cur s).2)) = kr at hkey ⊢
       obtain ⟨kc, key, s1⟩ := kr
       cases kc <;> simp only at hkey ⊢ <;> try exact hkey
@@ -479,20 +479,20 @@ theorem ne_mutual {cfg} : ∀ fuel,
       have hc := fd_cur h
       have hkey : Fd (if ((cur s).1 == 0x22 || (cur s).1 == 0x27) = true then parseQuoted cfg (cur s).1 (f+1) [] 0 (mv (cur s).2)
             else if inUnquoted (cur s).1 = true then
-              (Code.ok, (parseUnquoted (f+1) [] (cur s).2).1, (parseUnquoted (f+1) [] (cur s).2).2)
+              ((if (parseUnquoted (f+1) [] (cur s).2).1.length > cfg.maxStrLen then Code.noMemory else Code.ok), (parseUnquoted (f+1) [] (cur s).2).1, (parseUnquoted (f+1) [] (cur s).2).2)
             else (Code.invalid, [], (cur s).2)).2.2 ∧
           (if ((cur s).1 == 0x22 || (cur s).1 == 0x27) = true then parseQuoted cfg (cur s).1 (f+1) [] 0 (mv (cur s).2)
             else if inUnquoted (cur s).1 = true then
-              (Code.ok, (parseUnquoted (f+1) [] (cur s).2).1, (parseUnquoted (f+1) [] (cur s).2).2)
+              ((if (parseUnquoted (f+1) [] (cur s).2).1.length > cfg.maxStrLen then Code.noMemory else Code.ok), (parseUnquoted (f+1) [] (cur s).2).1, (parseUnquoted (f+1) [] (cur s).2).2)
             else (Code.invalid, [], (cur s).2)).1 ≠ .empty := by
         split
         · exact ⟨fd_parseQuoted _ _ _ _ (fd_mv hc), ne_parseQuoted _ _ _ _⟩
         · split
-          · exact ⟨fd_parseUnquoted _ _ _ hc, by simp⟩
+          · exact ⟨fd_parseUnquoted _ _ _ hc, by simp only [ne_eq]; split <;> simp⟩
           · exact ⟨hc, by simp⟩
       generalize (if ((cur s).1 == 0x22 || (cur s).1 == 0x27) = true then parseQuoted cfg (cur s).1 (f+1) [] 0 (mv (cur s).2)
             else if inUnquoted (cur s).1 = true then
-              (Code.ok, (parseUnquoted (f+1) [] (cur s).2).1, (parseUnquoted (f+1) [] (cur s).2).2)
+              ((if (parseUnquoted (f+1) [] (cur s).2).1.length > cfg.maxStrLen then Code.noMemory else Code.ok), (parseUnquoted (f+1) [] (cur s).2).1, (parseUnquoted (f+1) [] (cur s).2).2)
             else (Code.invalid, [], (cur s).2)) = kr at hkey ⊢
       obtain ⟨kc, key, s1⟩ := kr
       obtain ⟨hkey, nkey⟩ := hkey
